@@ -169,6 +169,9 @@ func (c02) Generate(idx int, r *core.Rand, tier string) core.Script {
 	for nrej < 6 && w.Chance(1, 2) {
 		nrej++
 	}
+	if w.Chance(1, 150) { // a source that is stuck for a long time before it recovers
+		nrej = w.Range(100, 300)
+	}
 	solvedAt, solvedReason := -1, ""
 	if nrej > 0 && ref.KeyValid(d) && w.Chance(2, 3) {
 		solvedAt = w.Intn(nrej)
